@@ -192,6 +192,15 @@ Theorem C15_component_release_frees_all :
 Proof. intros r p0 f ops sid dl Hs K. exact (s_comp_release_frees r p0 Hs f ops sid dl K). Qed.
 Print Assumptions C15_component_release_frees_all.
 
+(* allocateBlock (the literal word/bit scan) refuses exactly when every block index below TotalBlocks is taken; so the
+   "block allocation failed" answer on a paired address means that address is really full.  (The "no free blocks"
+   answer additionally goes through hasFreeBlock's popcount, which is tied to the code by correspondence only.) *)
+Theorem C15_allocate_block_refuses_iff_full :
+  forall a, (N.to_nat ((a_total a + 63) / 64) <= length (a_bits a))%nat ->
+  (allocate_block a = None <-> forall idx, idx < a_total a -> test_bit (a_bits a) idx = true).
+Proof. exact allocate_block_none_iff. Qed.
+Print Assumptions C15_allocate_block_refuses_iff_full.
+
 (* ---- what the code violated before the fixes now in /repo (variant [defective] or a single missing repair) ---- *)
 
 (* Before 285c7b2: RestoreMapping accepts an unaligned block overlapping subscriber 1's block; releasing the restored subscriber
